@@ -4,6 +4,7 @@ CONSTANTS
   Protocol = "atomic"
   SweepRecheck = TRUE
   ShareEnabled = TRUE
+  ShareMode = "detached"
   ReloadProtocol = "snapshot"
 INVARIANT Emit
 CHECK_DEADLOCK FALSE
